@@ -49,6 +49,8 @@ def run(chk: Check, proj: Project) -> None:
     s9(chk, proj, w)
     s11(chk, proj, w)
     s12(chk, proj, w)
+    s12b_slotref_keys(chk, proj)
+    s12c_slotref_live_context(chk, proj)
     from . import generic
 
     chk.rule("S10", "every function on the render routes that hands its parameters on to the next one (Component.render -> _render -> _render_impl -> _render_with_id, render_to_response -> render, ComponentNode.render -> _render, resolve_fills -> _extract_fill_content ...) hands on EVERY parameter the two signatures share, positional ones in the position of the same name")
@@ -434,6 +436,69 @@ def s5(chk: Check, proj: Project, w) -> None:
                     oc = ast.parse("self.outer_context", mode="eval").body  # a snapshot of it (liveness is judged by C03-S10)
     oki = bool(inst) and norm(oc or ast.Constant(value=0)) == "self.outer_context" and norm(kwarg(inst[0], "registry") or ast.Constant(value=0)) == "self.registry" and norm(kwarg(inst[0], "registered_name") or ast.Constant(value=0)) == "self.registered_name"
     chk.ob("S5", "components.dynamic:on_render_before:instance-inherits-identity", m.loc(inst[0]) if inst else m.loc(f), oki, "the inner instance gets the dynamic component's registered name, outer context and registry")
+
+
+def s12b_slotref_keys(chk: Check, proj: Project, rule: str = "S12") -> None:
+    """Every key SlotNode.render overrides for the PARENT component (on the Context the SlotRef may share) is re-established
+    by the SlotRef: captured keys >= pushed keys."""
+    sm = proj.mod("slots")
+    sr = sm.cls("SlotRef")
+    init = next((x for x in sr.body if isinstance(x, ast.FunctionDef) and x.name == "__init__"), None)
+    sm2, rf = proj.func("slots", "SlotNode.render")
+    ups = [it.context_expr for w_ in ast.walk(rf) if isinstance(w_, ast.With) for it in w_.items if isinstance(it.context_expr, ast.Call) and isinstance(it.context_expr.func, ast.Attribute) and it.context_expr.func.attr == "update" and it.context_expr.args and isinstance(it.context_expr.args[0], ast.Name)]
+    pushed = set()
+    comp_key = "_COMPONENT_CONTEXT_KEY"
+    for u in ups:
+        dn = u.args[0].id
+        stores = [(x, t) for x in ast.walk(rf) if isinstance(x, ast.Assign) for t in x.targets if isinstance(t, ast.Subscript) and isinstance(t.value, ast.Name) and t.value.id == dn]
+        # the parent-key override = the block that stores the component key; its sibling stores are overridden with it
+        blocks = [getattr(x, "parent", None) for x, t in stores if norm(t.slice) == comp_key]
+        for x, t in stores:
+            if any(getattr(x, "parent", None) is b for b in blocks) and (isinstance(t.slice, ast.Constant) or (isinstance(t.slice, ast.Name) and t.slice.id.isupper())):
+                pushed.add(norm(t.slice))
+    if init is None or comp_key not in pushed:
+        chk.undecided(rule, "slots:SlotRef:re-establishes-every-overridden-key", sm.loc(sr), f"SlotRef.__init__ / the parent-key override of SlotNode.render not found (pushed: {sorted(pushed)})")
+        return
+    cap = None
+    for x in ast.walk(init):
+        if isinstance(x, ast.Assign) and any(isinstance(t, ast.Attribute) and norm(t.value) == "self" for t in x.targets) and any(isinstance(y, ast.Name) and y.id == comp_key for y in ast.walk(x.value)):
+            cap = x
+    captured = set()
+    if cap is not None:
+        for y in ast.walk(cap.value):
+            if isinstance(y, ast.Name) and y.id.isupper():
+                captured.add(y.id)
+            if isinstance(y, ast.Constant) and isinstance(y.value, str):
+                captured.add(repr(y.value))
+    missing = sorted(k for k in pushed if k not in captured)
+    chk.ob(rule, "slots:SlotRef:re-establishes-every-overridden-key", sm.loc(cap) if cap is not None else sm.loc(init), cap is not None and not missing,
+           f"the SlotRef remembers {sorted(pushed)} - every key SlotNode.render overrides for the parent component" if cap is not None and not missing else
+           f"SlotNode.render overrides {sorted(pushed)} with the PARENT component's values on the Context the SlotRef shares (django mode), the SlotRef re-establishes only {sorted(captured & pushed) or 'none of them'}: the slot's original content printed through `{{{{ default }}}}` reads `component_vars.is_filled` of the OUTER component - the inner component's output depends on fills it never received")
+
+
+def s12c_slotref_live_context(chk: Check, proj: Project, rule: str = "S12") -> None:
+    """The SlotRef renders on the slot's LIVE Context (the object it was given), not on a copy."""
+    sm = proj.mod("slots")
+    sr = sm.cls("SlotRef")
+    init = next((x for x in sr.body if isinstance(x, ast.FunctionDef) and x.name == "__init__"), None)
+    st_ = next((x for x in sr.body if isinstance(x, ast.FunctionDef) and x.name == "__str__"), None)
+    if init is None or st_ is None:
+        chk.undecided(rule, "slots:SlotRef:renders-on-the-live-context", sm.loc(sr), "SlotRef.__init__ / __str__ not found")
+        return
+    from ..astq import params as _params
+
+    cp = _params(init)[-1]
+    # the attribute __str__ renders with
+    rend = [c for c in ast.walk(st_) if isinstance(c, ast.Call) and last_attr(c.func) == "render" and c.args]
+    attrs = {y.attr for c in rend for y in ast.walk(c) if isinstance(y, ast.Attribute) and norm(y.value) == "self"} | {y.attr for w_ in ast.walk(st_) if isinstance(w_, ast.With) for it in w_.items for y in ast.walk(it.context_expr) if isinstance(y, ast.Attribute) and norm(y.value) == "self"}
+    sts = [x for x in ast.walk(init) if isinstance(x, ast.Assign) and any(isinstance(t, ast.Attribute) and norm(t.value) == "self" and t.attr in attrs for t in x.targets) and any(isinstance(y, ast.Name) and y.id == cp for y in ast.walk(x.value))]
+    if not sts:
+        chk.undecided(rule, "slots:SlotRef:renders-on-the-live-context", sm.loc(init), f"no attribute of SlotRef used by __str__ is assigned from `{cp}`")
+        return
+    live = [x for x in sts if isinstance(x.value, ast.Name) and x.value.id == cp]
+    chk.ob(rule, "slots:SlotRef:renders-on-the-live-context", sm.loc(sts[0]), bool(live),
+           f"`{short(live[0])}`: the SlotRef keeps the Context object itself" if live else
+           f"`{short(sts[0])}` keeps a COPY of the slot's Context taken when the slot started: in django mode the fill is rendered on the live Context, so whatever the fill establishes around `{{{{ default }}}}` - a `{{% provide %}}` inside the fill, a `{{% with %}}` - is invisible to the default content; a component in it injects the outer provider (or the default) instead of the nearest enclosing one")
 
 
 MANIFEST = {
